@@ -23,6 +23,12 @@ declare -A PROPS=(
  [c17-abandon-retired-stale-tail]="C17 C02 C01"
  [c18-he-last-era-on-throw]="C18 C15"
  [r2-c01-geb-orphan-slot]="C01 C02"
+ [r3-c05-vyukov-bounded-empty-check]="C05"
+ [r3-c07-ramalhete-rollback-wrong-idx]="C07 C04"
+ [r3-c08-set-erase-single-find]="C08"
+ [r3-c14-seqlock-hoisted-wait]="C14"
+ [r3-c16-ramalhete-push-no-help]="C16"
+ [r3-c18-hp-acquire-marked-null-leak]="C18"
  [r2-c02-stampit-global-chunks]="C02 C17"
  [r2-c04-ramalhete-idx-mask]="C04 C07"
  [r2-c06-kirsch-kfifo]="C06 C07"
